@@ -29,6 +29,7 @@ type instrReport struct {
 	ChanWrapped []string          `json:"chan_wrapped"`
 	Gosched     []string          `json:"gosched"`
 	Knob        map[string]string `json:"knob"`
+	Finalizers  []string          `json:"finalizers"`
 	Timers      []string          `json:"timers"`
 	CLI         []string          `json:"cli_redirected"`
 	CLIMain     bool              `json:"cli_main"`
